@@ -8,6 +8,7 @@ Property theorems only (helper lemmas: `NumqiProofs/Lie.lean`, `NumqiProofs/LieR
 -/
 import NumqiProofs.Lie
 import NumqiProofs.LieReal
+import NumqiProofs.LieAngMom
 
 set_option linter.unusedSectionVars false
 
@@ -174,24 +175,22 @@ open Real
 /-- **`angle_to_so3 α β γ ∈ SO(3)` for all real angles.** -/
 theorem angleToSO3_mem_SO3 (a b g : ℝ) :
     M3 (angleToSO3 a b g) * (M3 (angleToSO3 a b g))ᵀ = 1 ∧ (M3 (angleToSO3 a b g)).det = 1 := by
-  have h : ∀ x : ℝ, Real.cos x * Real.cos x + Real.sin x * Real.sin x = 1 := fun x => by
-    have := Real.cos_sq_add_sin_sq x; nlinarith [this]
+  have h := cos_mul_self_add
   exact ⟨angleToSO3_orthogonal (h a) (h b) (h g), angleToSO3_det (h a) (h b) (h g)⟩
 
 /-- **`angle_to_su2 α β γ ∈ SU(2)` for all real angles.** -/
 theorem angleToSU2_mem_SU2 (a b g : ℝ) :
     M2 (angleToSU2 (1/2) a b g) * conjT (M2 (angleToSU2 (1/2) a b g)) = 1 ∧ (M2 (angleToSU2 (1/2) a b g)).det = 1 := by
-  have h : ∀ x : ℝ, Real.cos x * Real.cos x + Real.sin x * Real.sin x = 1 := fun x => by
-    have := Real.cos_sq_add_sin_sq x; nlinarith [this]
+  have h := cos_mul_self_add
   exact ⟨angleToSU2_unitary (h _) (h _) (h _), angleToSU2_det (h _) (h _) (h _)⟩
 
 /-- **`su2_to_so3 (angle_to_su2 α β γ) = angle_to_so3 α β γ` for all real angles.** -/
 theorem su2ToSO3_angleToSU2_real (a b g : ℝ) :
     su2ToSO3 (1/2) (angleToSU2 (1/2) a b g 0 0) (angleToSU2 (1/2) a b g 0 1) = angleToSO3 a b g := by
-  have h : ∀ x : ℝ, Real.cos x * Real.cos x + Real.sin x * Real.sin x = 1 := fun x => by
-    have := Real.cos_sq_add_sin_sq x; nlinarith [this]
-  unfold angleToSU2
-  rw [su2ToSO3_angleToSU2 (by norm_num) (h _) (h _) (h _)]
+  have h := cos_mul_self_add
+  refine (su2ToSO3_angleToSU2 (half := (1/2 : ℝ)) (cb := Real.cos (1/2 * b)) (sb := Real.sin (1/2 * b))
+    (p := ⟨Real.cos (1/2 * (a + g)), Real.sin (1/2 * (a + g))⟩) (m := ⟨Real.cos (1/2 * (a - g)), Real.sin (1/2 * (a - g))⟩)
+    (by norm_num) (h _) (h _) (h _)).trans ?_
   unfold angleToSO3
   have ea : (1/2 : ℝ) * (a + g) + 1/2 * (a - g) = a := by ring
   have eg : (1/2 : ℝ) * (a + g) - 1/2 * (a - g) = g := by ring
@@ -200,17 +199,308 @@ theorem su2ToSO3_angleToSU2_real (a b g : ℝ) :
   · show Real.cos _ * Real.cos _ - Real.sin _ * Real.sin _ = Real.cos a
     rw [← Real.cos_add, ea]
   · show Real.cos _ * Real.sin _ + Real.sin _ * Real.cos _ = Real.sin a
-    rw [← ea, Real.sin_add]; ring
+    rw [← ea, Real.sin_add]; ring_nf
   · show Real.cos _ * Real.cos _ - Real.sin _ * Real.sin _ = Real.cos b
     conv_rhs => rw [eb, Real.cos_two_mul]
     have := h (1/2 * b); nlinarith [this]
   · show 2 * Real.sin _ * Real.cos _ = Real.sin b
     conv_rhs => rw [eb, Real.sin_two_mul]
   · show Real.cos _ * Real.cos _ - Real.sin _ * (-Real.sin _) = Real.cos g
-    rw [← eg, Real.cos_sub]; ring
+    rw [← eg, Real.cos_sub]; ring_nf
   · show Real.cos _ * (-Real.sin _) + Real.sin _ * Real.cos _ = Real.sin g
-    rw [← eg, Real.sin_sub]; ring
+    rw [← eg, Real.sin_sub]; ring_nf
+
+/-- the rotation rebuilt from the extracted angles -/
+noncomputable def rebuild (M : Matrix (Fin 3) (Fin 3) ℝ) (eps : ℝ) : Matrix (Fin 3) (Fin 3) ℝ :=
+  M3 (angleToSO3 (so3ToAngle (1/2) M eps).1 (so3ToAngle (1/2) M eps).2.1 (so3ToAngle (1/2) M eps).2.2)
+
+private theorem rebuild_unfold (M : Matrix (Fin 3) (Fin 3) ℝ) (hO : M * Mᵀ = 1) (eps : ℝ) (br : Branch)
+    (hbr : branchOf (Real.arccos (M 2 2)) eps = br) :
+    rebuild M eps = match br with
+      | .zero => M3 (angleToSO3 (1/2 * Trig.mod2pi (Trig.atan2 (M 1 0) (M 0 0))) (Real.arccos (M 2 2))
+                  (1/2 * Trig.mod2pi (Trig.atan2 (M 1 0) (M 0 0))))
+      | .pi => M3 (angleToSO3 (Trig.mod2pi (Trig.atan2 (-M 1 0) (-M 0 0))) (Real.arccos (M 2 2)) 0)
+      | .generic => M3 (angleToSO3 (Trig.mod2pi (Trig.atan2 (M 1 2) (M 0 2))) (Real.arccos (M 2 2))
+                  (Trig.mod2pi (Trig.atan2 (M 2 1) (-M 2 0)))) := by
+  obtain ⟨hm1, hp1⟩ := so3_entry_bounds M hO
+  have hbeta : (Trig.acos (clip1 (M 2 2)) : ℝ) = Real.arccos (M 2 2) := by rw [clip1_of_mem hm1 hp1]; rfl
+  unfold rebuild so3ToAngle so3ToAngleHf0
+  rw [hbeta]
+  cases br <;> simp only [hbr]
+
+private theorem roundtrip_zero (M : Matrix (Fin 3) (Fin 3) ℝ) (hO : M * Mᵀ = 1) (hd : M.det = 1)
+    (eps : ℝ) (h0 : 0 < eps) (hz : Real.arccos (M 2 2) = 0) : rebuild M eps = M := by
+  obtain ⟨hr2, hc2, hc0⟩ := so3_norms M hO
+  obtain ⟨hm1, hp1⟩ := so3_entry_bounds M hO
+  have h22 : M 2 2 = 1 := le_antisymm hp1 (Real.arccos_eq_zero.mp hz)
+  have hbr : branchOf (Real.arccos (M 2 2)) eps = Branch.zero := by
+    unfold branchOf; rw [if_pos (by rw [hz]; exact h0)]
+  rw [rebuild_unfold M hO eps _ hbr]
+  obtain ⟨h20, h21⟩ := sq_sum_zero (x := M 2 0) (y := M 2 1) (by rw [h22] at hr2; linarith)
+  obtain ⟨h02, h12⟩ := sq_sum_zero (x := M 0 2) (y := M 1 2) (by rw [h22] at hc2; linarith)
+  have hn : M 0 0 * M 0 0 + M 1 0 * M 1 0 = 1 * 1 := by rw [h20] at hc0; linarith
+  set t : ℝ := Trig.mod2pi (Trig.atan2 (M 1 0) (M 0 0)) with ht
+  have hct : Real.cos t = M 0 0 := by rw [ht, cos_mod2pi, cos_atan2 one_pos hn, div_one]
+  have hst : Real.sin t = M 1 0 := by rw [ht, sin_mod2pi, sin_atan2 one_pos hn, div_one]
+  show M3 (angleToSO3cs (Real.cos (1/2 * t)) (Real.sin (1/2 * t)) (Real.cos (Real.arccos (M 2 2)))
+    (Real.sin (Real.arccos (M 2 2))) (Real.cos (1/2 * t)) (Real.sin (1/2 * t))) = M
+  rw [hz, Real.cos_zero, Real.sin_zero]
+  have e : t = 2 * (1/2 * t) := by ring
+  refine roundtrip_zero_alg M hO hd h22 h20 h21 h02 h12 _ _ ?_ ?_
+  · rw [← hct]; conv_rhs => rw [e, Real.cos_two_mul]
+    have := Real.cos_sq_add_sin_sq (1/2 * t); linear_combination (-1 : ℝ) * this
+  · rw [← hst]; conv_rhs => rw [e, Real.sin_two_mul]
+
+private theorem roundtrip_pi (M : Matrix (Fin 3) (Fin 3) ℝ) (hO : M * Mᵀ = 1) (hd : M.det = 1)
+    (eps : ℝ) (h0 : 0 < eps) (hpi : eps < Real.pi) (hp : Real.arccos (M 2 2) = Real.pi) : rebuild M eps = M := by
+  obtain ⟨hr2, hc2, hc0⟩ := so3_norms M hO
+  obtain ⟨hm1, hp1⟩ := so3_entry_bounds M hO
+  have h22 : M 2 2 = -1 := le_antisymm (Real.arccos_eq_pi.mp hp) hm1
+  have hbr : branchOf (Real.arccos (M 2 2)) eps = Branch.pi := by
+    unfold branchOf
+    rw [if_neg (by rw [hp]; exact not_lt.mpr hpi.le), if_pos (by rw [hp]; show Real.pi - eps < Real.pi; linarith)]
+  rw [rebuild_unfold M hO eps _ hbr]
+  obtain ⟨h20, h21⟩ := sq_sum_zero (x := M 2 0) (y := M 2 1) (by rw [h22] at hr2; linarith)
+  obtain ⟨h02, h12⟩ := sq_sum_zero (x := M 0 2) (y := M 1 2) (by rw [h22] at hc2; linarith)
+  have hn : (-M 0 0) * (-M 0 0) + (-M 1 0) * (-M 1 0) = 1 * 1 := by rw [h20] at hc0; linarith
+  set t : ℝ := Trig.mod2pi (Trig.atan2 (-M 1 0) (-M 0 0)) with ht
+  have hct : Real.cos t = -M 0 0 := by rw [ht, cos_mod2pi, cos_atan2 one_pos hn, div_one]
+  have hst : Real.sin t = -M 1 0 := by rw [ht, sin_mod2pi, sin_atan2 one_pos hn, div_one]
+  show M3 (angleToSO3cs (Real.cos t) (Real.sin t) (Real.cos (Real.arccos (M 2 2)))
+    (Real.sin (Real.arccos (M 2 2))) (Real.cos 0) (Real.sin 0)) = M
+  rw [hp, Real.cos_pi, Real.sin_pi, Real.cos_zero, Real.sin_zero]
+  exact roundtrip_pi_alg M hO hd h22 h20 h21 h02 h12 _ _ hct hst
+
+private theorem roundtrip_generic (M : Matrix (Fin 3) (Fin 3) ℝ) (hO : M * Mᵀ = 1) (hd : M.det = 1)
+    (eps : ℝ) (h0 : 0 < eps) (hg1 : eps ≤ Real.arccos (M 2 2)) (hg2 : Real.arccos (M 2 2) ≤ Real.pi - eps) :
+    rebuild M eps = M := by
+  obtain ⟨hr2, hc2, hc0⟩ := so3_norms M hO
+  obtain ⟨hm1, hp1⟩ := so3_entry_bounds M hO
+  have hbr : branchOf (Real.arccos (M 2 2)) eps = Branch.generic := by
+    unfold branchOf
+    rw [if_neg (not_lt.mpr hg1), if_neg (by show ¬ (Real.pi - eps < _); exact not_lt.mpr hg2)]
+  rw [rebuild_unfold M hO eps _ hbr]
+  set β := Real.arccos (M 2 2) with hβ
+  have hβ0 : 0 < β := lt_of_lt_of_le h0 hg1
+  have hβp : β < Real.pi := by linarith
+  have hs : 0 < Real.sin β := Real.sin_pos_of_pos_of_lt_pi hβ0 hβp
+  have hcb : Real.cos β = M 2 2 := Real.cos_arccos hm1 hp1
+  have hss : Real.sin β * Real.sin β = 1 - M 2 2 * M 2 2 := by
+    have := cos_mul_self_add β; rw [hcb] at this; linarith
+  have hnA : M 0 2 * M 0 2 + M 1 2 * M 1 2 = Real.sin β * Real.sin β := by rw [hss]; linarith
+  have hnG : (-M 2 0) * (-M 2 0) + M 2 1 * M 2 1 = Real.sin β * Real.sin β := by rw [hss]; linarith
+  show M3 (angleToSO3cs (Real.cos (Trig.mod2pi (Trig.atan2 (M 1 2) (M 0 2)))) (Real.sin (Trig.mod2pi (Trig.atan2 (M 1 2) (M 0 2))))
+    (Real.cos β) (Real.sin β)
+    (Real.cos (Trig.mod2pi (Trig.atan2 (M 2 1) (-M 2 0)))) (Real.sin (Trig.mod2pi (Trig.atan2 (M 2 1) (-M 2 0))))) = M
+  rw [cos_mod2pi, sin_mod2pi, cos_mod2pi, sin_mod2pi, cos_atan2 hs hnA, sin_atan2 hs hnA, cos_atan2 hs hnG, sin_atan2 hs hnG, hcb]
+  simp only [div_eq_mul_inv]
+  exact roundtrip_generic_alg M hO hd (Real.sin β) (Real.sin β)⁻¹ (mul_inv_cancel₀ hs.ne') hss
+
+/-- **SO(3) round trip, with the branch structure of `_so3_to_angle_hf0`**: for every `M ∈ SO(3)` and every threshold
+`0 < zero_eps < π`, `angle_to_so3 (so3_to_angle M) = M` exactly, when `β = arccos M₂₂` is exactly `0`, exactly `π`
+(the two gimbal-lock branches), or in the generic range `[zero_eps, π - zero_eps]`.
+(For `0 < β < zero_eps` and `π - zero_eps < β < π` the implementation takes the gimbal-lock branch on a matrix that
+is not exactly degenerate; there the result is only `O(zero_eps)`-accurate — see `So3RoundtripThreshold.Statement`.) -/
+theorem so3_roundtrip (M : Matrix (Fin 3) (Fin 3) ℝ) (hO : M * Mᵀ = 1) (hd : M.det = 1)
+    (eps : ℝ) (h0 : 0 < eps) (hpi : eps < Real.pi)
+    (hthr : Real.arccos (M 2 2) = 0 ∨ Real.arccos (M 2 2) = Real.pi ∨
+      (eps ≤ Real.arccos (M 2 2) ∧ Real.arccos (M 2 2) ≤ Real.pi - eps)) :
+    rebuild M eps = M := by
+  rcases hthr with hz | hp | ⟨hg1, hg2⟩
+  · exact roundtrip_zero M hO hd eps h0 hz
+  · exact roundtrip_pi M hO hd eps h0 hpi hp
+  · exact roundtrip_generic M hO hd eps h0 hg1 hg2
+
+/-- **Named gap (tolerance region)**: for `0 < β < zero_eps` or `π - zero_eps < β < π` the gimbal-lock branch is taken
+although the matrix is not exactly degenerate; the rebuilt rotation then deviates by `O(zero_eps)`.  Full statement
+(not proved; probed with tolerance `1e-6` at `zero_eps = 1e-7`): -/
+def So3RoundtripThreshold.Statement : Prop :=
+  ∀ (M : Matrix (Fin 3) (Fin 3) ℝ), M * Mᵀ = 1 → M.det = 1 → ∀ eps : ℝ, 0 < eps → eps < 1 →
+    ∀ i j, |rebuild M eps i j - M i j| ≤ 3 * eps
+
+/-- proved fragment of `So3RoundtripThreshold.Statement`: in every branch (threshold region included) the polar
+entry is reproduced exactly, `cos β = M₂₂`. -/
+theorem so3_roundtrip_threshold_partial (M : Matrix (Fin 3) (Fin 3) ℝ) (hO : M * Mᵀ = 1) (eps : ℝ) :
+    rebuild M eps 2 2 = M 2 2 := by
+  obtain ⟨hm1, hp1⟩ := so3_entry_bounds M hO
+  cases h : branchOf (Real.arccos (M 2 2)) eps <;> rw [rebuild_unfold M hO eps _ h] <;>
+    exact Real.cos_arccos hm1 hp1
+
+/-- the SU(2) matrix rebuilt from the angles extracted by `su2_to_angle` -/
+noncomputable def su2Rebuild (a b : Cx ℝ) (eps : ℝ) : Fin 2 → Fin 2 → Cx ℝ :=
+  angleToSU2 (1/2) (su2ToAngle (1/2) a b eps).1 (su2ToAngle (1/2) a b eps).2.1 (su2ToAngle (1/2) a b eps).2.2
+
+/-- **SU(2) round trip, full statement** (`angle_to_su2 (su2_to_angle U) = U`, sign included, outside the tolerance
+region).  Not proved: it needs that the kernel of `su2_to_so3` on SU(2) is `{±1}` and the analysis of the 4π-branch
+test; probed on the implementation. -/
+def Su2Roundtrip.Statement : Prop :=
+  ∀ (a b : Cx ℝ), nrm2 a b = 1 → ∀ eps : ℝ, 0 < eps → eps < Real.pi →
+    (let β := Real.arccos (su2ToSO3 (1/2) a b 2 2); β = 0 ∨ β = Real.pi ∨ (eps ≤ β ∧ β ≤ Real.pi - eps)) →
+    M2 (su2Rebuild a b eps) = su2Mat a b
+
+private theorem su2ToAngle_eq (a b : Cx ℝ) (eps : ℝ) :
+    ∃ k : ℝ, su2ToAngle (1/2) a b eps =
+      ((so3ToAngle (1/2) (su2ToSO3 (1/2) a b) eps).1, (so3ToAngle (1/2) (su2ToSO3 (1/2) a b) eps).2.1,
+       (so3ToAngle (1/2) (su2ToSO3 (1/2) a b) eps).2.2 + k * (2 * Real.pi)) ∧ (k = 0 ∨ k = 1) := by
+  have e : (su2Entries7 (1/2 : ℝ) a b).map Cx.re =
+      [su2ToSO3 (1/2) a b 0 0, su2ToSO3 (1/2) a b 1 0, su2ToSO3 (1/2) a b 0 2, su2ToSO3 (1/2) a b 1 2,
+       su2ToSO3 (1/2) a b 2 0, su2ToSO3 (1/2) a b 2 1, su2ToSO3 (1/2) a b 2 2] := rfl
+  unfold su2ToAngle
+  rw [e]
+  simp only [so3ToAngle]
+  split_ifs
+  · exact ⟨1, by simp [Trig.pi, two_mul], Or.inr rfl⟩
+  · exact ⟨0, by simp, Or.inl rfl⟩
+
+/-- proved fragment of `Su2Roundtrip.Statement`: **the SU(2) round trip holds modulo the kernel of the covering**, i.e.
+`su2_to_so3 (angle_to_su2 (su2_to_angle U)) = su2_to_so3 U` for every `U ∈ SU(2)` outside the tolerance region. -/
+theorem su2_roundtrip_partial (a b : Cx ℝ) (hu : nrm2 a b = 1) (eps : ℝ) (h0 : 0 < eps) (hpi : eps < Real.pi)
+    (hthr : Real.arccos (su2ToSO3 (1/2) a b 2 2) = 0 ∨ Real.arccos (su2ToSO3 (1/2) a b 2 2) = Real.pi ∨
+      (eps ≤ Real.arccos (su2ToSO3 (1/2) a b 2 2) ∧ Real.arccos (su2ToSO3 (1/2) a b 2 2) ≤ Real.pi - eps)) :
+    su2ToSO3 (1/2) (su2Rebuild a b eps 0 0) (su2Rebuild a b eps 0 1) = su2ToSO3 (1/2) a b := by
+  have h2 : (2 : ℝ) * (1/2) = 1 := by norm_num
+  have hO := su2ToSO3_orthogonal h2 hu
+  have hd : (M3 (su2ToSO3 (1/2) a b)).det = 1 := by rw [su2ToSO3_det h2, hu]; ring
+  have hrt := so3_roundtrip (M3 (su2ToSO3 (1/2) a b)) hO hd eps h0 hpi hthr
+  obtain ⟨k, hk, hk01⟩ := su2ToAngle_eq a b eps
+  unfold su2Rebuild
+  rw [hk, su2ToSO3_angleToSU2_real]
+  refine Eq.trans ?_ hrt
+  unfold rebuild angleToSO3
+  have hc : Real.cos ((so3ToAngle (1/2) (su2ToSO3 (1/2) a b) eps).2.2 + k * (2 * Real.pi))
+      = Real.cos (so3ToAngle (1/2) (su2ToSO3 (1/2) a b) eps).2.2 := by
+    rcases hk01 with rfl | rfl
+    · simp
+    · rw [one_mul, Real.cos_add_two_pi]
+  have hs : Real.sin ((so3ToAngle (1/2) (su2ToSO3 (1/2) a b) eps).2.2 + k * (2 * Real.pi))
+      = Real.sin (so3ToAngle (1/2) (su2ToSO3 (1/2) a b) eps).2.2 := by
+    rcases hk01 with rfl | rfl
+    · simp
+    · rw [one_mul, Real.sin_add_two_pi]
+  show angleToSO3cs _ _ _ _ (Real.cos _) (Real.sin _) = angleToSO3cs _ _ _ _ (Real.cos _) (Real.sin _)
+  rw [hc, hs]
 
 end real
+
+/-! ## Part C — angular momentum operators, every `j2`
+
+`K` is any commutative ring with `I² = -1`, `2·half = 1` and a function `sq` with `sq n · sq n = n`
+(for `K = ℂ`: `Complex.I`, `1/2`, `√n`).  `JxM / JyM / JzM` are the model's `jxEntry / jyEntry / jzEntry`
+as `(j2+1)×(j2+1)` matrices. -/
+
+section angmom
+variable {K : Type} [CommRing K] {I half : K} (sq : ℕ → K)
+
+/-- **`[Jx, Jy] = i Jz` for every `j2`.** -/
+theorem angular_momentum_comm_xy (h2 : 2 * half = 1) (hsq : ∀ n, sq n * sq n = (n : K)) (j2 : ℕ) :
+    JxM half sq j2 * JyM I half sq j2 - JyM I half sq j2 * JxM half sq j2 = I • JzM half j2 := by
+  have hc := Jp_comm_Jm sq hsq h2 j2
+  have e : JxM half sq j2 * JyM I half sq j2 - JyM I half sq j2 * JxM half sq j2
+      = (2 * I * half * half) • (JpM sq j2 * JmM sq j2 - JmM sq j2 * JpM sq j2) := by
+    rw [JxM_eq, JyM_eq]
+    simp only [smul_mul_assoc, mul_smul_comm, mul_add, add_mul, smul_add, smul_sub, smul_smul]
+    module
+  rw [e, hc, smul_smul]
+  congr 1
+  linear_combination (2 * I * half + I) * h2
+
+/-- **`[Jy, Jz] = i Jx` for every `j2`.** -/
+theorem angular_momentum_comm_yz (j2 : ℕ) :
+    JyM I half sq j2 * JzM half j2 - JzM half j2 * JyM I half sq j2 = I • JxM half sq j2 := by
+  have hp := Jz_comm_Jp sq half j2
+  have hm := Jz_comm_Jm sq half j2
+  have e : JyM I half sq j2 * JzM half j2 - JzM half j2 * JyM I half sq j2
+      = (I * half) • (JzM half j2 * JpM sq j2 - JpM sq j2 * JzM half j2)
+        - (I * half) • (JzM half j2 * JmM sq j2 - JmM sq j2 * JzM half j2) := by
+    rw [JyM_eq]
+    simp only [smul_mul_assoc, mul_smul_comm, mul_add, add_mul, smul_add, smul_sub, smul_smul]
+    module
+  rw [e, hp, hm, JxM_eq]
+  simp only [smul_add, smul_neg, smul_smul]
+  module
+
+/-- **`[Jz, Jx] = i Jy` for every `j2`.** -/
+theorem angular_momentum_comm_zx (hI : I * I = -1) (j2 : ℕ) :
+    JzM half j2 * JxM half sq j2 - JxM half sq j2 * JzM half j2 = I • JyM I half sq j2 := by
+  have hp := Jz_comm_Jp sq half j2
+  have hm := Jz_comm_Jm sq half j2
+  have e : JzM half j2 * JxM half sq j2 - JxM half sq j2 * JzM half j2
+      = half • (JzM half j2 * JpM sq j2 - JpM sq j2 * JzM half j2)
+        + half • (JzM half j2 * JmM sq j2 - JmM sq j2 * JzM half j2) := by
+    rw [JxM_eq]
+    simp only [smul_mul_assoc, mul_smul_comm, mul_add, add_mul, smul_add, smul_sub, smul_smul]
+    module
+  rw [e, hp, hm, JyM_eq]
+  simp only [smul_add, smul_neg, smul_smul]
+  have h1 : I * -(I * half) = half := by linear_combination (-half) * hI
+  have h2' : I * (I * half) = -half := by linear_combination half * hI
+  rw [h1, h2']
+  module
+
+/-- **Casimir: `Jx² + Jy² + Jz² = j(j+1)·1`, `j = j2/2`, for every `j2`.** -/
+theorem angular_momentum_casimir (hI : I * I = -1) (h2 : 2 * half = 1) (hsq : ∀ n, sq n * sq n = (n : K)) (j2 : ℕ) :
+    JxM half sq j2 * JxM half sq j2 + JyM I half sq j2 * JyM I half sq j2 + JzM half j2 * JzM half j2
+      = ((half * (j2 : K)) * (half * (j2 : K) + 1)) • (1 : Matrix (Fin (j2 + 1)) (Fin (j2 + 1)) K) := by
+  have e : JxM half sq j2 * JxM half sq j2 + JyM I half sq j2 * JyM I half sq j2
+      = (2 * half * half) • (JpM sq j2 * JmM sq j2 + JmM sq j2 * JpM sq j2) := by
+    rw [JxM_eq, JyM_eq]
+    simp only [smul_mul_assoc, mul_smul_comm, mul_add, add_mul, smul_add, smul_sub, smul_smul]
+    have h1 : -(I * half) * -(I * half) = -(half * half) := by linear_combination (half * half) * hI
+    have h3 : I * half * -(I * half) = half * half := by linear_combination (-(half * half)) * hI
+    have h4 : -(I * half) * (I * half) = half * half := by linear_combination (-(half * half)) * hI
+    have h5 : I * half * (I * half) = -(half * half) := by linear_combination (half * half) * hI
+    rw [h1, h3, h4, h5]
+    module
+  rw [e]
+  ext i k
+  simp only [Matrix.add_apply, Matrix.smul_apply, JpM_mul_JmM sq hsq, JmM_mul_JpM sq hsq, JzM_mul, JzM_apply,
+    Matrix.one_apply, smul_eq_mul]
+  have hi := i.isLt
+  split_ifs with h
+  · simp only [zval]
+    have e1 : ((j2 + 1 - i.val : ℕ) : K) = (j2 : K) - (i.val : K) + 1 := by
+      have : j2 + 1 - i.val = (j2 - i.val) + 1 := by omega
+      rw [this, Nat.cast_add, Nat.cast_sub (by omega)]; simp
+    have e2 : ((j2 - i.val : ℕ) : K) = (j2 : K) - (i.val : K) := by rw [Nat.cast_sub (by omega)]
+    push_cast
+    rw [e1, e2]
+    linear_combination (-(j2 : K) * (j2 : K) + 2 * (j2 : K) * half * (i.val : K) + (j2 : K) * half + 2 * (j2 : K) * (i.val : K)
+      - 2 * half * (i.val : K) * (i.val : K) - (i.val : K) * (i.val : K)) * h2
+  · ring
+
+end angmom
+
+/-! ## the hypotheses are satisfiable, the statements are not vacuous -/
+
+/-- Part C at `K = ℂ`: `I = Complex.I`, `half = 1/2`, `sq n = √n`. -/
+example (j2 : ℕ) :
+    JxM (1/2 : ℂ) (fun n => ((Real.sqrt n : ℝ) : ℂ)) j2 * JyM Complex.I (1/2) (fun n => ((Real.sqrt n : ℝ) : ℂ)) j2
+      - JyM Complex.I (1/2) (fun n => ((Real.sqrt n : ℝ) : ℂ)) j2 * JxM (1/2 : ℂ) (fun n => ((Real.sqrt n : ℝ) : ℂ)) j2
+      = Complex.I • JzM (1/2 : ℂ) j2 :=
+  angular_momentum_comm_xy _ (by norm_num) (fun n => by
+    rw [← Complex.ofReal_mul, Real.mul_self_sqrt (Nat.cast_nonneg n)]; simp) j2
+
+/-- the spin-1/2 matrices are the halved Pauli matrices (`sq 1 = 1`) -/
+example : JxM (1/2 : ℚ) (fun _ => 1) 1 0 1 = 1/2 ∧ JzM (1/2 : ℚ) 1 0 0 = 1/2 ∧ JzM (1/2 : ℚ) 1 1 1 = -1/2 := by
+  refine ⟨?_, ?_, ?_⟩ <;> simp [JxM, JzM, jxEntry, jzEntry, ladder] <;> norm_num
+
+/-- `so3_roundtrip` applies to the identity (β = 0 exactly) … -/
+example : Real.arccos ((1 : Matrix (Fin 3) (Fin 3) ℝ) 2 2) = 0 := by simp
+
+/-- … to `diag(-1, 1, -1)` (β = π exactly) … -/
+example : Real.arccos ((M3 (rotY (-1 : ℝ) 0)) 2 2) = Real.pi := by simp [rotY]
+
+/-- … and to the quarter turn about `y` (β = π/2, generic branch for `zero_eps = 10⁻⁷`), which is in SO(3). -/
+example : M3 (rotY (0 : ℝ) 1) * (M3 (rotY (0 : ℝ) 1))ᵀ = 1 ∧ (M3 (rotY (0 : ℝ) 1)).det = 1 ∧
+    (1e-7 : ℝ) ≤ Real.arccos ((M3 (rotY (0 : ℝ) 1)) 2 2) ∧ Real.arccos ((M3 (rotY (0 : ℝ) 1)) 2 2) ≤ Real.pi - 1e-7 := by
+  refine ⟨rotY_orthogonal (by norm_num), rotY_det (by norm_num), ?_, ?_⟩
+  · simp [rotY]; have := Real.two_le_pi; linarith
+  · simp [rotY]; have := Real.two_le_pi; linarith
+
+/-- a non-trivial instance of the covering identity over `ℚ`: the rational point `(3/5, 4/5)` for all three pairs -/
+example : su2ToSO3 (1/2 : ℚ) (angleToSU2cs (3/5) (4/5) ⟨3/5, 4/5⟩ ⟨3/5, 4/5⟩ 0 0) (angleToSU2cs (3/5) (4/5) ⟨3/5, 4/5⟩ ⟨3/5, 4/5⟩ 0 1)
+    = angleToSO3cs (-7/25) (24/25) (-7/25) (24/25) 1 0 := by
+  rw [su2ToSO3_angleToSU2 (by norm_num) (by norm_num) (by norm_num) (by norm_num)]
+  congr 1 <;> first | (simp only [Cx.mul_re, Cx.mul_im, Cx.conj_re, Cx.conj_im]; norm_num) | norm_num
 
 end Numqi.C15
